@@ -28,7 +28,9 @@ impl Element {
 
 impl Hash for Element {
     fn hash<H: core::hash::Hasher>(&self, state: &mut H) {
-        self.inner.hash(state);
+        // Equal elements can have different inner curve points (the two members
+        // of a coset, any projective scaling), so hash the canonical encoding.
+        self.vartime_compress().0.hash(state);
     }
 }
 
@@ -123,7 +125,8 @@ impl Zero for Element {
     }
 
     fn is_zero(&self) -> bool {
-        self.inner.is_zero()
+        // The inner point of the identity element may be either (0, 1) or (0, -1).
+        self.is_identity()
     }
 }
 
